@@ -22,6 +22,7 @@ type Decision struct {
 	C int    // chosen alternative
 	V uint64 // value (for concretisation decisions)
 	F bool   // a real fork (more than one alternative was feasible)
+	Conc bool // a concretisation step
 }
 
 type pathEnd struct {
@@ -228,8 +229,20 @@ func (e *Engine) record(d Decision, cond *Term) {
 	if cond != nil {
 		e.known[cond.id] = true
 	}
-	if d.F && e.cfg.NShards > 1 {
-		e.forkStr = append(e.forkStr, byte(d.C), byte(d.V), byte(d.V>>8))
+	// Shard assignment must not depend on the order in which the solver happens
+	// to enumerate values: a concretisation contributes only the value finally
+	// chosen on this path (its "t != v" steps are artefacts of the enumeration
+	// order), and counts as a fork level whether or not other values remained.
+	shardLevel := d.F
+	if d.Conc {
+		shardLevel = d.C == 1
+	}
+	if shardLevel && e.cfg.NShards > 1 {
+		if d.Conc {
+			e.forkStr = append(e.forkStr, 0xfe, byte(d.V), byte(d.V>>8), byte(d.V>>16), byte(d.V>>24))
+		} else {
+			e.forkStr = append(e.forkStr, byte(d.C))
+		}
 		e.forks++
 		if e.forks == e.cfg.SplitK && !e.mine() {
 			defer e.end("notmine", "subtree belongs to another shard")
@@ -386,9 +399,9 @@ func (e *Engine) concretize(t *Term, limit int, what string) uint64 {
 		// is any other value feasible?
 		fork := e.query(Not(Eq(t, vt))) == RSat
 		if fork {
-			e.pushWork(Decision{C: 0, V: v, F: true})
+			e.pushWork(Decision{C: 0, V: v, F: true, Conc: true})
 		}
-		e.record(Decision{C: 1, V: v, F: fork}, Eq(t, vt))
+		e.record(Decision{C: 1, V: v, F: fork, Conc: true}, Eq(t, vt))
 		return v
 	}
 }
